@@ -52,6 +52,10 @@ int main(int argc, char **argv)
             const QJsonObject o = a.toObject();
             if (o["t"].toString() == "i")
                 msg.setAttribute(fromUnits(o["k"].toArray()), o["i"].toInt());
+            else if (o["t"].toString() == "sn")
+                msg.setAttribute(fromUnits(o["k"].toArray()), QString());
+            else if (o["t"].toString() == "z")
+                msg.setAttribute(fromUnits(o["k"].toArray()), QVariant());
             else
                 msg.setAttribute(fromUnits(o["k"].toArray()), fromUnits(o["v"].toArray()));
         }
